@@ -170,11 +170,16 @@ def parse_coq_value(s):
         if t == 'false': return False
         if t == 'None': return None
         if t == 'Some': return ('Some', atom())
+        if t.startswith('"'): return ('str', t[1:-1])
         if t == 'nil': return []
-        if t.startswith('"'): return t[1:-1]
         return t
     def expr():
         a = atom()
+        if isinstance(a, str) and re.fullmatch(r"[A-Za-z_][\w\.']*", a) and peek() not in (';', ',', ')', ']', None):
+            args = []
+            while peek() not in (';', ',', ')', ']', None):
+                args.append(atom())
+            return (a, args[0]) if len(args) == 1 else (a, args)
         return a
     v = expr()
     return v
